@@ -232,9 +232,9 @@ def tabbed(name):
     return name + "\t" if " " in name else name
 
 
-def gen_file(rng, kind=None, prefixes=("a/", "b/"), ending=None):
+def gen_file(rng, kind=None, prefixes=("a/", "b/"), ending=None, paths=None):
     kind = kind or rng.choice(FILE_KINDS)
-    paths = PATHS
+    paths = paths or PATHS
     if prefixes == ("", ""):
         # diff.noprefix: a first path component that looks like a mnemonic prefix is inherently ambiguous
         paths = [p for p in PATHS if not re.match(r"[abciow]/", p)]
